@@ -32,7 +32,7 @@ EPS = 1e-6
 def generate(prop, seed):
     rng = random.Random(seed)
     mode = rng.choice(['saturated', 'saturated', 'mixed', 'mixed', 'paced', 'phase',
-                       'abandon', 'abandon'])
+                       'abandon', 'abandon', 'recover'])
     R = rng.choice([1000.0, 4096.0, 65536.0, 1e6])
     thr = rng.choice([1, 64, 1024, 4096])
     n = {'paced': rng.choice([1, 1, 2, 3])}.get(mode, rng.choice([1, 2, 2, 3, 4, 6, 8]))
@@ -75,6 +75,15 @@ def generate(prop, seed):
             if rng.random() < 0.15:
                 st['close_after'] = True
             streams.append(st)
+    if mode == 'recover':
+        # after arbitrary contention and a long idle gap, one stream whose
+        # demand is a tenth of the limit: the limiter's memory of the past
+        # decays by 5x per consume, so its last reads must not be delayed
+        amt = thr * rng.randint(1, 3)
+        gap = 50.0 * max(len(s_['prog']) for s_ in streams) * 16 * thr / R + 10.0
+        streams.append({'prog': [['read', gap, amt]] +
+                        [['read', 10.0 * amt / R, amt] for _ in range(39)],
+                        'toggle': None, 'recover': True})
     if mode == 'abandon':
         k = rng.randint(1, max(1, n // 2))
         for si in rng.sample(range(n), k):
@@ -124,6 +133,7 @@ def execute(sc, choices=None, lenient=False):
     active_to = {}
     abandon_stamp = {}
     reading = {}
+    recover_sleeps = []
 
     if over:
         def overshoot(d):
@@ -225,6 +235,8 @@ def execute(sc, choices=None, lenient=False):
                     finally:
                         c['in_read'] = False
                         reading[si] = False
+                    if st.get('recover'):
+                        recover_sleeps.append(c['sleeps'])
                     if c['sleeps'] > 1:
                         violations.append(['C13', 'multiple-waits',
                                            'one read of stream %d slept %d times'
@@ -332,6 +344,13 @@ def execute(sc, choices=None, lenient=False):
         violations.append(['C13', 'delayed-below-limit',
                            'paced traffic (every consume at least amount/R after the previous '
                            'one) was delayed by %d wait(s)' % info['sleeps'], {}])
+    if sc['mode'] == 'recover' and len(recover_sleeps) >= 40 and not harness and f is None:
+        late = sum(recover_sleeps[-5:])
+        if late:
+            violations.append(['C13', 'delayed-below-limit',
+                               'after an idle gap a single stream asking for a tenth of the limit '
+                               'is still delayed on %d of its last 5 reads (36th-40th): the '
+                               'limiter never recovers' % late, {'variant': 'no-recovery'}])
     # (iv) rate over every window between two delivery events
     ev = sorted((d[0], d[1], d[3], d[2]) for d in deliveries if d[4])
     worst = None
